@@ -402,7 +402,9 @@ class SymReal:
         raise TypeError('SymReal cannot be converted to float (would concretise)')
 
     def __format__(self, spec):
-        raise TypeError('SymReal cannot be formatted (would concretise)')
+        # only log messages and comment strings format numbers in the code reached by E2 harnesses; the text is a
+        # placeholder, never compared
+        return '<symbolic real>'
 
     def __round__(self, n=None):
         return self       # rounding to n decimals is abstracted: |round(x) - x| <= 0.5e-n is stated by the harness
